@@ -121,7 +121,7 @@ fn apply(fx: &Fx, t: &mut Tracker, op: &HOp) -> Result<(), String> {
 
 /// All answers of a store for one thread: read capabilities + the compiled context for every
 /// message as anchor (ids minted by the compile projected away).
-fn all_answers(fx: &Fx, thread: &str, light: bool, max_anchors: usize) -> Vec<(String, Value)> {
+pub fn all_answers(fx: &Fx, thread: &str, light: bool, max_anchors: usize) -> Vec<(String, Value)> {
     let store = fx.store();
     let mut out = read_answers(&store, thread, light);
     let msgs: Vec<String> = fx
